@@ -1,5 +1,5 @@
 import Driver.Lat
-import Pcore.Model.DescribeText
+import Pcore.Model.DescribeSig
 /-!
   Driver op of C19 for the STRUCTURE of the mismatch description (syntax in harness/c19/descs.go):
 
@@ -80,7 +80,38 @@ def descs (e a : Sexp) : String :=
       else render (describe Lat.cfg Lat.sfh e a (subjectPath "x"))
   | _, _ => "bad-op"
 
+/-! ### `sigd (SIG*) ARGS` — px.DescribeSignatures(signatures, ARGS, nil)
+    SIG ::= ((T*) LO HI BLK) | nilparams     BLK ::= n | r | o   (no block type / a required block / an optional block)
+    parameter names are "1" … "n" (CallableType.ParameterNames)
+    → fault | empty | single ITEM | list (ITEM*) (ITEM*) …     (one group per signature that is listed) -/
+def sigOf : Sexp → Option Sig
+  | .atom "nilparams" => some { params := none, names := [], block := .none }
+  | .list [.list ts, lo, hi, .atom b] => do
+      let tys ← ts.mapM Lat.ty?
+      let r ← Lat.rngOf lo hi
+      let blk ← (match b with | "n" => some BlockReq.none | "r" => some .required | "o" => some .optional | _ => none)
+      pure { params := some (tys, r), names := (List.range tys.length).map fun i => toString (i + 1), block := blk }
+  | _ => none
+
+def renderS : SRes → String
+  | .fault _ => "fault"
+  | .empty => "empty"
+  | .single m => "single " ++ itemStr m
+  | .listing per => "list" ++ String.join (per.map fun ms => " (" ++ " ".intercalate ((sortRuns ms).map itemStr) ++ ")")
+
+def sigd (sigs args : Sexp) : String :=
+  if hasAlias sigs || hasAlias args then "alias" else
+  match sigs with
+  | .list ss =>
+    (match ss.mapM sigOf, Lat.ty? args with
+     | some sgs, some a =>
+        if tyUnsafe a || sgs.any (fun sg => match sg.params with | some (ts, _) => ts.any tyUnsafe | none => false) then "unsafe-key"
+        else renderS (describeSignatures Lat.cfg Lat.sfh sgs a)
+     | _, _ => "bad-op")
+  | _ => "bad-op"
+
 def exec : List Sexp → String
+  | [.atom "sigd", sigs, args] => sigd sigs args
   | [.atom "descs", e, a] => descs e a
   | [.atom "descx", e, a, .atom _, .list _] => descs e a
   | _ => "bad-op"
